@@ -571,25 +571,28 @@ Definition delta_eqb (d e : list (N * N * N)) : bool :=
 (* A history on the real idr API.  The operations carry the OBSERVED pool choices. *)
 Record hcase := mkHCase {
   hc_caching : bool;
+  hc_strict : bool;           (* false: a script outside the API preconditions; only the
+                                 returned labels and the link-level changes are compared *)
   hc_ops : list op;
   hc_obs : list obs;
   hc_final : list tree }.     (* the live trees at the end, as Base.Tree trees *)
 
-Fixpoint replay (caching : bool) (s : st) (F : forest) (ops : list op) (os : list obs)
+Fixpoint replay (caching strict : bool) (s : st) (F : forest) (ops : list op) (os : list obs)
   : option (st * forest) :=
   match ops, os with
   | [], [] => Some (s, F)
   | o :: ops', ob :: os' =>
-      if pre_b caching s F o then
+      if negb strict || pre_b caching s F o then
         match step caching s o with
         | Ok (s', ret) =>
             let F' := aeffect s F o in
             if N.eqb (N_of_oaddr ret) (o_ret ob)
                && delta_eqb (delta s s') (o_delta ob)
-               && rep_b s' F'
-               && list_eqb (opt_eqb atree_eqb) (map (abs s') (map root F')) (map Some F')
-               && match o_forest ob with Some G => list_eqb atree_eqb F' G | None => true end
-            then replay caching s' F' ops' os'
+               && (negb strict ||
+                   rep_b s' F'
+                   && list_eqb (opt_eqb atree_eqb) (map (abs s') (map root F')) (map Some F')
+                   && match o_forest ob with Some G => list_eqb atree_eqb F' G | None => true end)
+            then replay caching strict s' F' ops' os'
             else None
         | _ => None
         end
@@ -598,9 +601,10 @@ Fixpoint replay (caching : bool) (s : st) (F : forest) (ops : list op) (os : lis
   end.
 
 Definition check_hcase (c : hcase) : bool :=
-  match replay (hc_caching c) init [] (hc_ops c) (hc_obs c) with
+  match replay (hc_caching c) (hc_strict c) init [] (hc_ops c) (hc_obs c) with
   | Some (s, F) =>
-      list_eqb (opt_eqb tree_eqb) (map (payload (heap s)) F) (map Some (hc_final c))
+      negb (hc_strict c)
+      || list_eqb (opt_eqb tree_eqb) (map (payload (heap s)) F) (map Some (hc_final c))
   | None => false
   end.
 
